@@ -1157,26 +1157,12 @@ func (c *Ctx) conds() (map[*ssa.BasicBlock]DNF, error) {
 				continue // unreachable pred
 			}
 			// which successor index?
-			ec := pc
+			ec := dnfFalse()
 			for si, s := range p.Succs {
 				if s != b {
 					continue
 				}
-				e := pc
-				for _, l := range c.edgeLits(p, si) {
-					if v, known := c.constLit(l); known {
-						if !v {
-							e = dnfFalse()
-						}
-						continue
-					}
-					e = e.andLit(l)
-				}
-				if si == 0 || p.Succs[0] != b {
-					ec = e
-				} else {
-					ec = ec.or(e)
-				}
+				ec = ec.or(c.edgeCond(m, p, si, pc))
 			}
 			d = d.or(ec)
 		}
@@ -1184,6 +1170,117 @@ func (c *Ctx) conds() (map[*ssa.BasicBlock]DNF, error) {
 	}
 	c.blockCond = m
 	return m, nil
+}
+
+// edgeCond: condition of taking edge p -> p.Succs[si], given cond(p) = pc. A branch on a boolean phi is
+// expanded through the phi's incoming edges (phi == OR_i edge_i ∧ value_i), so that flags such as
+// `alreadyWatching` re-assigned on one path keep their meaning.
+func (c *Ctx) edgeCond(m map[*ssa.BasicBlock]DNF, p *ssa.BasicBlock, si int, pc DNF) DNF {
+	if len(p.Instrs) == 0 {
+		return pc
+	}
+	iff, ok := p.Instrs[len(p.Instrs)-1].(*ssa.If)
+	if !ok {
+		return pc
+	}
+	v := iff.Cond
+	neg := si == 1
+	for {
+		if u, ok := v.(*ssa.UnOp); ok && u.Op == token.NOT {
+			neg = !neg
+			v = u.X
+			continue
+		}
+		break
+	}
+	if ph, ok := v.(*ssa.Phi); ok && isBoolType(ph.Type()) && (ph.Block() == p || ph.Block().Dominates(p)) {
+		if d, okAll := c.phiDNF(m, ph, neg, 0); okAll {
+			if ph.Block() == p {
+				return d
+			}
+			return pc.and(d)
+		}
+	}
+	e := pc
+	for _, l := range c.edgeLits(p, si) {
+		if val, known := c.constLit(l); known {
+			if !val {
+				e = dnfFalse()
+			}
+			continue
+		}
+		e = e.andLit(l)
+	}
+	return e
+}
+
+// phiDNF: absolute condition "control reached ph's block and ph has value !neg".
+func (c *Ctx) phiDNF(m map[*ssa.BasicBlock]DNF, ph *ssa.Phi, neg bool, depth int) (DNF, bool) {
+	if depth > 4 {
+		return nil, false
+	}
+	var d DNF
+	for i, pred := range ph.Block().Preds {
+		if isBackEdge(pred, ph.Block()) {
+			if ph.Edges[i] == ssa.Value(ph) {
+				continue // loop-invariant: the back edge carries the phi itself
+			}
+			return nil, false
+		}
+		ppc, have := m[pred]
+		if !have {
+			return nil, false
+		}
+		e := dnfFalse()
+		for psi, s := range pred.Succs {
+			if s == ph.Block() {
+				e = e.or(c.edgeCond(m, pred, psi, ppc))
+			}
+		}
+		ev := ph.Edges[i]
+		if ph2, isPhi := ev.(*ssa.Phi); isPhi && isBoolType(ph2.Type()) && (ph2.Block() == pred || ph2.Block().Dominates(pred)) {
+			sub, ok := c.phiDNF(m, ph2, neg, depth+1)
+			if !ok {
+				return nil, false
+			}
+			e = e.and(sub)
+		} else {
+			l := c.lit(ev)
+			if neg {
+				l.Neg = !l.Neg
+			}
+			if val, known := c.constLit(l); known {
+				if !val {
+					e = dnfFalse()
+				}
+			} else {
+				e = e.andLit(l)
+			}
+		}
+		d = d.or(e)
+	}
+	return d, true
+}
+
+// condPhi reports whether block b ends in a branch on a boolean phi.
+func condPhi(b *ssa.BasicBlock) (*ssa.Phi, bool) {
+	if len(b.Instrs) == 0 {
+		return nil, false
+	}
+	iff, ok := b.Instrs[len(b.Instrs)-1].(*ssa.If)
+	if !ok {
+		return nil, false
+	}
+	v := iff.Cond
+	for {
+		if u, ok := v.(*ssa.UnOp); ok && u.Op == token.NOT {
+			v = u.X
+			continue
+		}
+		break
+	}
+	ph, ok := v.(*ssa.Phi)
+	return ph, ok && isBoolType(ph.Type())
 }
 
 // sortedKeys helper
